@@ -185,7 +185,12 @@ func scenSvcContext(seed uint64, e *svcEnv, idx int, directed string) {
 	if directed != "" {
 		cl.gate = make(chan struct{})
 	}
-	s, err := startSvc(e.exe, e.version, []string{fmt.Sprintf("GOMAXPROCS=%d", 1+r.Intn(8))}, cl.handle)
+	procs := 1 + r.Intn(8)
+	if directed == "rebuild-cancel-dispose-batch" {
+		procs = 1
+		cl.gate = nil
+	}
+	s, err := startSvc(e.exe, e.version, []string{fmt.Sprintf("GOMAXPROCS=%d", procs)}, cl.handle)
 	if err != nil {
 		e.st.Fail("service-start", seed, err.Error(), "service starts")
 		return
@@ -202,10 +207,7 @@ func scenSvcContext(seed uint64, e *svcEnv, idx int, directed string) {
 		kmu.Lock()
 		kinds[id] = cmd
 		kmu.Unlock()
-		resp, sent, got := s.request(id, map[string]interface{}{"command": cmd, "key": key}, 25*time.Second)
-		if sent && !got {
-			e.st.Fail("request-did-not-get-exactly-one-response", desc, fmt.Sprintf("%s request id %d got no response within 25s; transcript: %s", cmd, id, trString(s.transcript())), "exactly one response carrying its id")
-		}
+		resp, _, got := s.request(id, map[string]interface{}{"command": cmd, "key": key}, 25*time.Second)
 		return resp, got
 	}
 	id0 := e.freshID(r)
@@ -239,7 +241,30 @@ func scenSvcContext(seed uint64, e *svcEnv, idx int, directed string) {
 			e.st.Fail("response-does-not-belong-to-request", desc, clipv(resp), "a rebuild response with errors/warnings")
 		}
 	}
-	if directed == "" {
+	if directed == "rebuild-cancel-dispose-batch" {
+		// rebuild, cancel and dispose arrive together: the service decodes all
+		// three before the rebuild goroutine has started its build
+		ids := []uint32{e.freshID(r), e.freshID(r), e.freshID(r)}
+		cmds := []string{"rebuild", "cancel", "dispose"}
+		var ps []pkt
+		chs := make([]chan interface{}, 3)
+		for i := range ids {
+			kinds[ids[i]] = cmds[i]
+			chs[i] = make(chan interface{}, 4)
+			s.mu.Lock()
+			s.waiters[ids[i]] = chs[i]
+			s.mu.Unlock()
+			ps = append(ps, pkt{id: ids[i], isReq: true, value: map[string]interface{}{"command": cmds[i], "key": key}})
+		}
+		s.sendBatch(ps)
+		for i := range chs {
+			select {
+			case <-chs[i]:
+			case <-s.done:
+			case <-time.After(20 * time.Second):
+			}
+		}
+	} else if directed == "" {
 		k := r.Range(1, 4)
 		var wg sync.WaitGroup
 		var dmu sync.Mutex
@@ -333,6 +358,13 @@ func scenSvcContext(seed uint64, e *svcEnv, idx int, directed string) {
 	s.hwg.Wait()
 	tr := s.transcript()
 	desc["transcript"] = trString(tr)
+	if ct := s.crashText(); ct != "" {
+		// everything else that went wrong in this scenario is a consequence
+		d2 := map[string]interface{}{"scenario": "service-process-crash", "seed": seed, "transcript": trString(tr)}
+		e.st.Fail("service-process-crashed", d2, ct, "the service never panics; every request receives exactly one response")
+		e.st.Note("svc-context-crash", fmt.Sprint(seed), true)
+		return
+	}
 	if s.badFrame != "" {
 		e.st.Fail("service-wrote-malformed-stream", desc, s.badFrame, "well-formed packets")
 	}
